@@ -33,6 +33,7 @@ func treeOpts(t *rapid.T, thorough bool) gen.Opts {
 	if thorough {
 		o.BigTips = 200
 	}
+	o.Comments, o.OneLine = rapid.IntRange(0, 2).Draw(t, "comments") == 0, true // annotations of other programs: not compared, must not disturb
 	switch rapid.IntRange(0, 2).Draw(t, "deco") {
 	case 0:
 		o.InnerNames = gen.AnyPresence
